@@ -477,6 +477,12 @@ class DOK(SparseArray, NDArrayOperatorsMixin):
     def isnan(self):
         return self.to_coo().isnan().asformat("dok")
 
+    def squeeze(self, axis=None):
+        return self.to_coo().squeeze(axis=axis).asformat("dok")
+
+    def broadcast_to(self, shape):
+        return self.to_coo().broadcast_to(shape).asformat("dok")
+
     def asformat(self, format, **kwargs):
         """
         Convert this sparse array to a given format.
